@@ -123,6 +123,8 @@ pub fn ast_opts(which: Which) -> Opts {
     o.tags_on_wrappers = true;
     o.blank_wrappers = true;
     o.first_line_empty_pct = 5;
+    // opening tags of block elements that span several lines (the README's layout)
+    o.multiline_tag_pct = 12;
     if which == Which::C04 {
         o.unwrap_tags_shared = true;
     }
@@ -252,6 +254,9 @@ pub fn oracle_ast(c: &AstCase, which: Which, obs: &mut Obs) -> Verdict {
     if tags.len() != 2 * r.elems.len() {
         obs.excluded("rendering-does-not-tokenize-as-intended");
         return Verdict::Pass;
+    }
+    if r.elems.iter().enumerate().any(|(i, e)| e.open_first_line != e.open_line && tr.decisions[i] == Decision::Ready) {
+        obs.class("ready-element-with-multi-line-opening-tag");
     }
     // oracle self-check: construction vs reference model
     match refmodel::model(&r.src, &cfg) {
@@ -637,6 +642,7 @@ pub fn check(ctx: &mut Ctx, id: &'static str) {
         }
         Which::C14 => ctx.require_class("has-unwrapped-body"),
     }
+    ctx.require_class("ready-element-with-multi-line-opening-tag");
     // bounded-exhaustive atom sequences, judged by the reference model
     {
         let l = ctx.tier.pick(6usize, 7usize);
